@@ -38,21 +38,23 @@ ENGINES = {
 
 PROP = {
     "engines": ["threads"],
-    "lean_modules": ["AxVerif.Model.Latch", "AxVerif.Lemmas.Latch", "AxVerif.Model.Serial", "AxVerif.Driver.Threads"],
+    "lean_modules": ["AxVerif.Model.Latch", "AxVerif.Lemmas.Latch", "AxVerif.Model.Coord", "AxVerif.Lemmas.Coord", "AxVerif.Model.Serial",
+                     "AxVerif.Driver.Threads"],
     "rule": "one case = 2-8 client threads on one fresh database (own Session transactions and/or autocommit Database::execute calls; "
             "inserts, deletes, selects; UPDATE and the other known-finding features of C04 are kept out), started behind a barrier, paced "
-            "from the case's seed, every call under a 10 s watchdog inside a supervised child process. Clean shapes (each 1/6 of the clean "
+            "from the case's seed, every call under a 10 s watchdog inside a supervised child process. Clean shapes (each 1/7 of the clean "
             "cases): 2 autocommit writers on own tables; 2-3 writers + readers of static tables; 3-5 session writers + session readers; the "
             "same over tables preloaded to several pages (cache 10000 or 32-64); readers scanning the very tables being written (one-page "
-            "and multi-page); begin/commit stress (session writers, fast autocommit committers, readers of the session writers' tables). "
-            "Region shapes (6 % of quick, 10 % of thorough cases, spread among the clean ones): several writers on ONE table, cache 12-20 "
+            "and multi-page); begin/commit stress (2 session writers x 6-8 transactions, 2 fast autocommit committers, 3-4 readers of the "
+            "session writers' tables); scans next to splits (one writer appends 100-160 rows to a multi-page table while 3 readers scan it). "
+            "Region shapes (5 % of quick, 9 % of thorough cases, spread among the clean ones): several writers on ONE table, cache 12-20 "
             "pages, a thread calling Database::flush, statements that panic in a pool worker. All derived from VERIF_SEED (the schedules "
             "themselves are the OS's). Non-trivial = every case (>= 2 threads, >= 30 events); distinct = distinct case line.",
     "assumptions": [
         "the ticket order is the only cross-thread order used: a call that returned before another was issued took effect first; begin and "
         "commit points of a call lie inside its ticket interval (an autocommit call is cut into begin / statement / commit events)",
         "transaction ids are not obtainable through the public API, so the begin/commit order is searched (bounded depth-first search, "
-        "60 000 nodes) and then verified; an observation whose search runs out of budget is reported as not-serialisable (never seen on the clean region)",
+        "8 000 nodes, look-ahead on every begin, commits placed lazily) and then verified; an observation whose search runs out of budget is reported as `not-serialisable search-budget-exhausted` (0 of ~6 000 clean runs with the final search)",
         "rows are compared as sorted multisets of rendered values (SELECT * without ORDER BY); row ids are not observable",
         "error classes are read off the Display text, as in engine `hist`",
         "tables have the shape (k BIGINT, v INT, p TEXT) without constraints; rows stay under ~150 bytes and at most two tables per case are "
@@ -80,10 +82,12 @@ TEXT = {
             "number of threads, trees and rebalancing orders: the pager lock is never held across a latch wait; readers only / writers only / "
             "readers with writers never reach a state without an enabled step (the suspected leaf-scan vs sibling-rebalance cycle is refuted: "
             "both sides go through the root latch); plus reachable-deadlock witnesses for the two real defects found (a scan re-latching a one-page "
-            "table behind a parked writer - repaired; Database::flush latching pages under the pager lock - listed). (b) A verified checker for "
+            "table behind a parked writer - repaired; Database::flush latching pages under the pager lock - listed); a model of "
+            "TransactionCoordinator::begin with the theorem that an atomic begin only ever counts committed transactions as committed, and the "
+            "witness of the shipped three-step begin (dirty read - repaired). (b) A verified checker for "
             "multi-threaded observations: checkSerialSI_sound / checkSerial_sound - an accepted observation has a linearisation (thread order and "
             "ticket order kept) on which the MVCC model of C04 gives every observed answer and the observed final contents, and is equivalent to "
-            "a serial execution of its transactions. (c) Tie: ~250 (quick) / ~1 600 (thorough) runs of 2-8 real client threads against the real "
+            "a serial execution of its transactions. (c) Tie: ~300 (quick) / ~4 600 (thorough) runs of 2-8 real client threads against the real "
             "database per check, each under a watchdog, each judged by the checker.",
     "design_ref": "DESIGN.md §5 C14",
     "note": "Schedules are observed, not enumerated; the latch theorems are about an abstraction of the acquisition order read off the code. Two "
